@@ -711,6 +711,92 @@ class C05(Prop):
         return None
     def nontrivial(self, op, line): return line.startswith("POS some")
 
+def text_equal(a, m, tol=2e-3):
+    """compare two rendered texts token by token; numeric tokens within a tolerance (float formatting differs)"""
+    ta = a.replace("\\n", " \\n ").split(" "); tm = m.replace("\\n", " \\n ").split(" ")
+    if len(ta) != len(tm): return False
+    for x, y in zip(ta, tm):
+        if x == y: continue
+        try:
+            fx, fy = float(x), float(y)
+        except ValueError:
+            return False
+        if abs(fx - fy) > tol * max(1.0, abs(fx)): return False
+    return True
+
+class C11(Prop):
+    id = "C11"; module = "Adsb.Theorems.C11"; design_ref = "5/C11"
+    deps = []
+    rule = ("every renderer branch on both sides of its condition: every format, type code, subtype, BDS code, flight status / capability / control field / "
+            "emergency word, altitude 0 vs >0, heading-status, ACAS + autopilot/vnav/alt-hold/approach flag combinations, velocity with and without "
+            "information, airspeed rate 0 vs >0, L/W codes, heading reference, capability-class and operational-mode flags; plus structured random frames; "
+            "whole text compared (numbers printed from floats numerically)")
+    claim = "templates with the frame's own values as holes, optional lines as explicit conditions (theorems); full-string correspondence on every branch"
+    def equal(self, a, m): return a == m or (a.startswith("TXT") and m.startswith("TXT") and text_equal(a, m))
+    def ops(self, rng, tier):
+        fr = []
+        reps = 1 if tier == "quick" else 4
+        for r in range(reps):
+            for df in (0, 4, 16, 20):
+                for c in (0, 0x0040, 0x1fff, 0x0c5, 0x1a38, 0x0a, 0x1eaf):
+                    for fs in range(8):
+                        b = rand_frame(rng, df, bds=rng.choice([0, 0x10, 0x20, 0x55]) if df == 20 else None)
+                        put(b, 19, 13, c)
+                        if df in (4, 20): put(b, 5, 3, fs)
+                        fr.append(b)
+            for fs in range(8):
+                b = rand_frame(rng, 5); put(b, 5, 3, fs); fr.append(b)
+                for bds in (0, 0x10, 0x20, 0x77):
+                    b = rand_frame(rng, 21, bds=bds); put(b, 5, 3, fs); fr.append(b)
+            for ca in range(8):
+                b = rand_frame(rng, 11); put(b, 5, 3, ca); fr.append(b)
+                b = rand_frame(rng, 24 + rng.below(8)); put(b, 5, 3, ca); fr.append(b)
+            fr.append(rand_frame(rng, 19))
+            for df in (17, 18):
+                for hd in range(8):          # CA / CF
+                    for tc in range(32):
+                        b = rand_frame(rng, df, tc=tc); put(b, 5, 3, hd)
+                        if tc == 31: make_opstatus_ok(rng, b, rng.below(2)) if rng.chance(3, 4) else put(b, 37, 3, 2 + rng.below(6))
+                        fr.append(b)
+                # velocity branches
+                for st in range(8):
+                    for (vew, vns, vr) in ((0, 5, 3), (7, 0, 3), (7, 9, 0), (7, 9, 1), (1, 1, 2), (1023, 1023, 511), (300, 2, 40)):
+                        for bits in range(8):
+                            b = rand_frame(rng, df, tc=19); put(b, 37, 3, st); put(b, 46, 10, vew); put(b, 57, 10, vns); put(b, 69, 9, vr)
+                            put(b, 45, 1, bits & 1); put(b, 56, 1, (bits >> 1) & 1); put(b, 68, 1, (bits >> 2) & 1); put(b, 67, 1, rng.below(2)); put(b, 80, 1, rng.below(2))
+                            put(b, 81, 7, rng.choice([0, 1, 2, 127]))
+                            fr.append(b)
+                # target state flags
+                for flags in range(128):
+                    b = rand_frame(rng, df, tc=29)
+                    put(b, 61, 1, flags & 1); put(b, 84, 1, (flags >> 1) & 1); put(b, 79, 1, (flags >> 2) & 1); put(b, 80, 1, (flags >> 3) & 1)
+                    put(b, 81, 1, (flags >> 4) & 1); put(b, 83, 1, (flags >> 5) & 1)
+                    put(b, 52, 9, rng.choice([0, 1, 2, 267, 511])); put(b, 41, 11, rng.choice([0, 1, 2, 720, 2047]))
+                    fr.append(b)
+                # operational status flags
+                for st in (0, 1):
+                    for k in range(96):
+                        b = rand_frame(rng, df, tc=31); make_opstatus_ok(rng, b, st)
+                        put(b, 42, 2, k & 3); put(b, 46, 4, (k >> 2) & 15); put(b, 52, 4, rng.choice([0, 0, 5, 15])); put(b, 58, 6, rng.bits(6)); put(b, 85, 1, (k >> 6) & 1)
+                        fr.append(b)
+                # airborne position altitude None / some, parity
+                for c in (0, 0x010, 0x0c5, 0x20a, 0x7ff, 0xfff):
+                    for tc in (9, 18, 20, 22):
+                        b = rand_frame(rng, df, tc=tc); put(b, 40, 12, c); fr.append(b)
+                # identification incl. spaces and '#'
+                for k in range(20):
+                    b = rand_frame(rng, df, tc=1 + rng.below(4))
+                    for pch in range(8): put(b, 40 + 6 * pch, 6, rng.choice([32, 1 + rng.below(26), 48 + rng.below(10), rng.below(64)]))
+                    fr.append(b)
+                # emergency words
+                for em in range(8):
+                    b = rand_frame(rng, df, tc=28); put(b, 40, 3, em); fr.append(b)
+        ops = [hexop("D", b) for b in fr]
+        ops += [o.replace("F ", "D ", 1) for o in structured(rng, 3000 if tier == "quick" else 100000)]
+        return ops
+    def project(self, op, line): return line
+    def nontrivial(self, op, line): return line.startswith("TXT") and len(line) > 4
+
 class C19(Prop):
     id = "C19"; module = "Adsb.Theorems.C19"; design_ref = "5/C19"
     deps = ["shape:ReaderCrc::read", "shape:ReaderCrc::seek", "shape:Frame::from_reader", "shape:Frame::read_crc"]
@@ -813,5 +899,5 @@ class C01(Prop):
     def nontrivial(self, op, line): return line.startswith(("OK", "TXT", "VEL some", "POS some", "ADDED"))
 
 ALL = {}
-for c in [C01, C02, C03, C04, C05, C06, C07, C08, C09, C10, C12, C13, C14, C15, C19, C20]:
+for c in [C01, C02, C03, C04, C05, C06, C07, C08, C09, C10, C11, C12, C13, C14, C15, C19, C20]:
     ALL[c.id] = c
